@@ -75,9 +75,21 @@ def check(run, drv, we, thorough):
             em, am, bm = sp.members(e, 1), sp.members(a1, 1), sp.members(b1, 1)
             for method in (("peak",) if nan_case else ("peak", "mean")):
                 for conv in ("going_to_counter_clockwise_east", "coming_from_clockwise_north"):
-                    out = we.estimate_u10_from_spectrum(spec, method, fmax=fmax, power=4, directional_spreading_constant=I,
-                                                        phillips_constant_beta=beta, vonkarman_constant=kappa, grav=G,
-                                                        number_of_bins=nb, direction_convention=conv, charnock_constant=charn)
+                    # every parameter is either passed or left to its documented default, independently
+                    kw, eff = {}, {}
+                    for name, val, default in (("fmax", fmax, 0.5), ("directional_spreading_constant", I, 2.5),
+                                               ("phillips_constant_beta", beta, 0.012), ("vonkarman_constant", kappa, 0.4),
+                                               ("number_of_bins", nb, 20), ("charnock_constant", charn, 0.012)):
+                        if rng.random() < 0.7:
+                            kw[name] = val
+                            eff[name] = val
+                        else:
+                            eff[name] = default
+                            run.count("default_" + name)
+                    fmax_e, I_e, beta_e, kappa_e, nb_e, charn_e = (eff["fmax"], eff["directional_spreading_constant"],
+                                                                   eff["phillips_constant_beta"], eff["vonkarman_constant"],
+                                                                   eff["number_of_bins"], eff["charnock_constant"])
+                    out = we.estimate_u10_from_spectrum(spec, method, power=4, grav=G, direction_convention=conv, **kw)
                     us = np.asarray(out["friction_velocity"].values, dtype=float).reshape(-1)
                     dr = np.asarray(out["direction"].values, dtype=float).reshape(-1)
                     u10 = np.asarray(out["u10"].values, dtype=float).reshape(-1)
@@ -86,13 +98,13 @@ def check(run, drv, we, thorough):
                         if method == "peak":
                             ans = drv.ask(f"wind peak 4 {bits_list(f)} {bits_list(em[i])} {bits_list(am[i])} {bits_list(bm[i])}").split()
                         else:
-                            ans = drv.ask(f"wind mean 4 {nb} {bits(fmax)} {bits_list(f)} {bits_list(em[i])} {bits_list(am[i])} {bits_list(bm[i])}").split()
+                            ans = drv.ask(f"wind mean 4 {nb_e} {bits(fmax_e)} {bits_list(f)} {bits_list(em[i])} {bits_list(am[i])} {bits_list(bm[i])}").split()
                         lvl, ma, mb = [float("nan") if t == "nan" else from_bits(t) for t in ans]
-                        mus = from_bits(drv.ask(f"wind ustar {bits(lvl)} {bits(G)} {bits(I)} {bits(beta)}"))
+                        mus = from_bits(drv.ask(f"wind ustar {bits(lvl)} {bits(G)} {bits(I_e)} {bits(beta_e)}"))
                         mdir = from_bits(drv.ask(f"wind dir {bits(ma)} {bits(mb)}")) if ma == ma and mb == mb else float("nan")
                         if conv == "coming_from_clockwise_north" and mdir == mdir:
                             mdir = from_bits(drv.ask(f"wind met {bits(mdir)}"))
-                        mu10 = from_bits(drv.ask(f"wind u10 {bits(kappa)} {bits(charn)} {bits(G)} {bits(mus)}"))
+                        mu10 = from_bits(drv.ask(f"wind u10 {bits(kappa_e)} {bits(charn_e)} {bits(G)} {bits(mus)}"))
                         info = dict(method=method, convention=conv, layout=layout, member=i, analytic=analytic,
                                     f=f.tolist()[:6], e=em[i].tolist()[:6])
 
@@ -105,8 +117,17 @@ def check(run, drv, we, thorough):
                         # oracles
                         if dr[i] == dr[i] and not (0 <= dr[i] < 360):
                             run.violation("estimated direction outside [0, 360)", dict(info, got=float(dr[i])))
-                        if analytic:
-                            want = 8 * math.pi ** 3 * cs[i] / (4 * G * I * beta)
+                        if analytic and method == "mean":
+                            # the oracle needs one whole window inside the f^-4 range
+                            imax = int(np.argmin(np.abs(f - fmax_e))) + 1 - nb_e
+                            imax = min(max(1, imax), len(f) - nb_e)
+                            tail_ok = imax >= 1 and f[imax - 1] >= lowcut and imax - 1 + nb_e <= len(f)
+                        else:
+                            tail_ok = True
+                        if analytic and not tail_ok:
+                            run.count("analytic_window_outside_tail")
+                        if analytic and tail_ok:
+                            want = 8 * math.pi ** 3 * cs[i] / (4 * G * I_e * beta_e)
                             if abs(us[i] - want) > 1e-9 * want:
                                 run.violation("friction velocity is not 8 pi^3 c / (4 g I beta) for a spectrum with a c f^-4 range",
                                               dict(info, got=float(us[i]), want=want, c=float(cs[i])))
@@ -117,11 +138,18 @@ def check(run, drv, we, thorough):
                                               dict(info, got=float(dr[i]), want=wd))
                         if method == "peak" and not np.isnan(em[i]).all():
                             lev = np.nanmax(np.nan_to_num(em[i]) * f ** 4)
-                            want = 8 * math.pi ** 3 * lev / (4 * G * I * beta)
+                            want = 8 * math.pi ** 3 * lev / (4 * G * I_e * beta_e)
                             if abs(us[i] - want) > 1e-9 * want:
                                 run.violation("peak method: friction velocity is not computed from the maximum of E f^4", dict(info, got=float(us[i]), want=want))
-                        z0 = charn * us[i] ** 2 / G
-                        wu = us[i] / kappa * math.log(10 / z0) if us[i] > 0 else float("nan")
+                        if method == "peak" and not np.isnan(em[i]).all():
+                            istar = int(np.nanargmax(np.nan_to_num(em[i]) * f ** 4))
+                            going = math.degrees(math.atan2(bm[i][istar], am[i][istar])) % 360
+                            wd = going if conv.startswith("going") else (270 - going) % 360
+                            if abs((dr[i] - wd + 180) % 360 - 180) > 1e-7:
+                                run.violation("peak method: direction is not that of a1/b1 at the bin where E f^4 is largest",
+                                              dict(info, got=float(dr[i]), want=wd, bin=istar))
+                        z0 = charn_e * us[i] ** 2 / G
+                        wu = us[i] / kappa_e * math.log(10 / z0) if us[i] > 0 else float("nan")
                         if us[i] > 0 and abs(u10[i] - wu) > 1e-9 * abs(wu):
                             run.violation("U10 does not follow the log law with the Charnock roughness of u*", dict(info, got=float(u10[i]), want=wu))
             # linear scaling and 2D = 1D reduction
